@@ -310,7 +310,7 @@ fn add(u: i64, loc: u64, pay: i64, len: u64) -> AOp {
 /// reachable pre-states
 fn cases(thorough: bool) -> Vec<Case> {
     let mut v: Vec<Case> = Vec::new();
-    let pb = if thorough { 3 } else { 2 };
+    let pb = if thorough { 4 } else { 3 };
     let none: Script = vec![];
     let reg12 = vec![(AOp::Reg(1), none.clone()), (AOp::Reg(2), none.clone())];
     let mut with = |name: &str, cfg: Cfg, pre: Vec<(AOp, Script)>, threads: Vec<Vec<AOp>>, script: Script, bound: usize| {
@@ -486,12 +486,12 @@ fn cases(thorough: bool) -> Vec<Case> {
         pb,
     );
     // ---- triples
-    let tb = if thorough { 2 } else { 1 };
+    let tb = if thorough { 3 } else { 2 };
     with("T:add||add-identical||connect-dispute", std_cfg(), reg12.clone(), vec![vec![a17.clone()], vec![a17.clone()], vec![c7.clone()]], none.clone(), tb);
     with("T:reg||add||connect-dispute", std_cfg(), reg12.clone(), vec![vec![AOp::Reg(1)], vec![a17.clone()], vec![c7.clone()]], none.clone(), tb);
     with("T:add||get||connect-dispute", std_cfg(), reg12.clone(), vec![vec![a17.clone()], vec![g17.clone()], vec![c7.clone()]], none.clone(), tb);
     with("T:reg||add||connect-purge", purge_cfg, purge_pre.clone(), vec![vec![AOp::Reg(1)], vec![a18.clone()], vec![c_purge.clone()]], none.clone(), tb);
-    if thorough {
+    {
         with("T:add||add-other-user||connect-dispute", std_cfg(), reg12.clone(), vec![vec![a17.clone()], vec![a27.clone()], vec![c7.clone()]], none.clone(), tb);
         with("T:reg||reg||add", std_cfg(), reg12.clone(), vec![vec![AOp::Reg(1)], vec![AOp::Reg(1)], vec![a17.clone()]], none.clone(), tb);
         with("T:add||connect-complete||reg", std_cfg(), complete_pre.clone(), vec![vec![a18.clone()], vec![c_complete.clone()], vec![AOp::Reg(1)]], none.clone(), tb);
